@@ -280,7 +280,8 @@ class C20(core.Check):
         mf = self.mf
         data = op["text"].encode("utf-8")
         # the file name is just a name: nothing in it is special (no environment variables, no templates, no globbing)
-        names = ["in.map", "in.map", "cost_$HOME.map", "stage_${PATH}.map", "tiles_{z}.map", "ünï 中.map", "with space.map", "~tilde.map"]
+        names = ["in.map", "in.map", "cost_$HOME.map", "stage_${PATH}.map", "tiles_{z}.map", "ünï 中.map", "with space.map", "~tilde.map",
+                 "n" * 251 + ".map"]  # (the longest name a directory entry can have: 255 bytes)
         p = os.path.join(d, names[len(data) % len(names)])
         with open(p, "wb") as f:
             f.write(data)
@@ -328,7 +329,8 @@ class C20(core.Check):
             bump("skipped.dumps_refuses")
             return None
         text = s[2]
-        p = os.path.join(d, ["out.map", "out_$HOME.map", "out {x}.map"][len(text) % 3])
+        outs = ["out.map", "out_$HOME.map", "out {x}.map", "w" * 251 + ".map", "é" * 125 + ".map", "out.map"]  # two of 255 / 254 bytes
+        p = os.path.join(d, outs[len(text) % len(outs)])
         if len(text) % 2:
             with open(p, "wb") as f:  # the target already exists and is LONGER than what will be written
                 f.write(b"# older, longer content\n" * 4000)
@@ -398,6 +400,7 @@ class C20(core.Check):
         mf = self.mf
         pin = os.path.join(d, "in.map")
         text = op["text"]
+        has_include = False
         if op.get("include"):
             # one INCLUDE so that --expand / --no-expand matter
             with open(os.path.join(d, "inc.map"), "wb") as f:
@@ -406,6 +409,7 @@ class C20(core.Check):
             if lines and lines[0].strip().upper() == "MAP":
                 lines.insert(1, '  INCLUDE "inc.map"')
                 text = "\n".join(lines)
+                has_include = True
         with open(pin, "wb") as f:
             f.write(text.encode("utf-8"))
         if op.get("symlink") and not op.get("in_place"):
@@ -417,7 +421,7 @@ class C20(core.Check):
                 f.write('LAYER\n  NAME "beside the link"\n  TYPE LINE\nEND\n'.encode())
             os.symlink(pin, os.path.join(ld, "in.map"))
             pin = os.path.join(ld, "in.map")
-        pout = pin if op.get("in_place") else os.path.join(d, "out.map")
+        pout = pin if op.get("in_place") else os.path.join(d, "out.map" if len(text) % 5 else "o" * 251 + ".map")
         args = ["format", pin, pout]
         skw = {}
         if op["indent"] is not None:
@@ -469,6 +473,25 @@ class C20(core.Check):
         if got != want:
             return viol("format_output_differs_from_save_open", op, {"cli": got[:400].decode("utf-8", "replace"), "api": want[:400].decode("utf-8", "replace")}, **sig)
         bump("checked.format_equals_api")
+        if has_include and not op.get("in_place") and not op.get("symlink"):
+            # the included file is edited and the same command is run again: the long-lived process (this one) and the
+            # new one must both show the file as it is now
+            with open(os.path.join(d, "inc.map"), "wb") as f:
+                f.write('LAYER\n  NAME "included, second edition"\n  TYPE LINE\nEND\n'.encode())
+            ref = core.call(lambda: mf.save(mf.open(pin, **okw), pref, **skw))
+            res = self.run_cli(args)
+            if ref[0] != "ok" or res["status"] != 0:
+                return viol("format_after_include_edit_failed", op, {"api": ref[1], "cli": res}, **sig)
+            with open(pout, "rb") as f:
+                got = f.read()
+            with open(pref, "rb") as f:
+                want = f.read()
+            if got != want:
+                return viol("format_output_differs_from_save_open", op, {"after_include_edit": True, "cli": got[:400].decode("utf-8", "replace"),
+                                                                          "api": want[:400].decode("utf-8", "replace")}, **sig)
+            if op["expand"] is not False and b"second edition" not in got:
+                return viol("format_shows_stale_include", op, {"cli": got[:400].decode("utf-8", "replace")}, **sig)
+            bump("checked.format_after_include_edit")
         return None
 
     def op_validate(self, op, d, viol, bump):
@@ -561,7 +584,8 @@ class C20(core.Check):
     def op_schema(self, op, d, viol, bump):
         from mappyfile.validator import Validator
 
-        pout = os.path.join(d, "schema.json")
+        # (one version in three: a name of exactly the longest length a directory entry can have)
+        pout = os.path.join(d, "schema.json" if str(op["version"])[-1:] not in ("6", "2") else "s" * 250 + ".json")
         args = ["schema", pout] + (["--version", op["version"]] if op["version"] is not None else [])
         res = self.run_cli(args)
         if res["status"] != 0:
